@@ -135,6 +135,8 @@ func c04(c *Ctx) {
 	rd.sticky("C04.sticky")
 	rd.close1002("C04.close-1002")
 	flateWrapperRule(c, "C04.error-reaches-reader") // ... and keeps reporting it: the inflater is given up only at EOF
+	r.Rule("C04.no-false-violation", "a frame RFC 6455 allows is not treated as a violation (it would be refused, its 1002 close sent and everything after it lost): no protocol-error return of advanceFrame is compatible with a conformant non-close header (same rule as C03.accept-table)")
+	rd.lateRefusals("C04.no-false-violation")
 	r.Rule("C04.close-1002-sendable", "an earlier control write that merely timed out waiting for the connection does not poison it, so the 1002 close frame of a later violation can still be sent (same rule as C11.timeout-paths)")
 	c.borrow(c11, map[string]string{"C11.timeout-paths": "C04.close-1002-sendable"})
 	r.Rule("C04.control-bodies-readable", "a control frame body of any legal size can be read, so that its validation (close code, UTF-8) and the 1002 reply happen instead of a buffer error (same rule as C08.read-buffer)")
